@@ -26,14 +26,94 @@ def top_fns(crate, fns):
     return out
 
 
-def guards(crate, fns):
-    out = []
-    for p, b in top_fns(crate, fns):
+def _call_args(x):
+    return ([x["recv"]] if x.get("k") == "MethodCall" else []) + list(x.get("args") or ())
+
+
+def guards(crate, fns, new=()):
+    """validation exits per function.  `new`: functions that did not exist when the tables were reviewed — their
+    guards are attributed to each call site in a reviewed function (parameters replaced by the arguments), so that
+    moving a check into a helper leaves the inventory unchanged."""
+    new = set(new)
+    memo = {}
+
+    def own(p, b, depth=0):
+        """[(variant, cond, line, kind)] of body b including guards of `new` helpers it calls"""
+        key = p
+        if key in memo:
+            return memo[key]
+        memo[key] = []
         ix = hq.Index(b)
+        res = []
         for g in ix.all_guards():
             var = g["errs"][0].split("::")[-1] if g["errs"] else ""
-            out.append({"fn": p, "variant": var, "cond": norm(g.get("raw", g["cond"])), "line": g["node"]["sp"][2],
-                        "file": b["file"], "kind": g["kind"]})
+            res.append((var, g.get("raw", g["cond"]), g["node"]["sp"][2], g["kind"]))
+        if depth < 3:
+            for x, _ in H.walk(b["body"]):
+                if x.get("k") not in ("Call", "MethodCall"):
+                    continue
+                c = H.strip_generics(H.callee(x) or "")
+                if c in new and c in crate.hir and c != p:
+                    cb = crate.hir[c]
+                    args = _call_args(x)
+                    params = list(cb.get("params") or ())
+                    if params and params[0].get("k") == "Bind" and params[0].get("name") == "self" and x.get("k") == "MethodCall":
+                        args = args[1:]
+                    elif params and params[0].get("k") == "Bind" and params[0].get("name") == "self":
+                        args = args[1:]
+                    argc = [ix.canon(a) for a in args]
+                    for var, cond, line, kind in own(c, cb, depth + 1):
+                        res.append((var, hq._subst_params(cond, argc), x["sp"][2], kind))
+        memo[key] = res
+        return res
+    out = []
+    for p, b in top_fns(crate, fns):
+        if p in new:
+            continue
+        for var, cond, line, kind in own(p, b):
+            out.append({"fn": p, "variant": var, "cond": norm(cond), "line": line, "file": b["file"], "kind": kind})
+    return out
+
+
+def owners(crate, fns, new):
+    """new function -> [reviewed function, one entry per call site] (through other new functions)"""
+    new = set(new)
+    sites = {}
+    for p in fns:
+        j = crate.mir.get(p)
+        if j is None:
+            continue
+        for bi, t, tgt in M.Body(j).calls():
+            c = H.strip_generics(tgt or "")
+            if c in new:
+                sites.setdefault(c, []).append(p)
+    memo = {}
+
+    def res(f, depth=0):
+        if f in memo:
+            return memo[f]
+        memo[f] = []
+        out = []
+        for caller in sites.get(f, ()):
+            if caller in new:
+                if depth < 4:
+                    out += res(caller, depth + 1)
+            else:
+                out.append(caller)
+        memo[f] = out
+        return out
+    return {f: res(f) for f in new}
+
+
+def reattribute(items, own):
+    """items found in new functions are counted at each reviewed caller instead"""
+    out = []
+    for it in items:
+        if it["fn"] in own:
+            for o in own[it["fn"]]:
+                out.append(dict(it, fn=o, via=it["fn"]))
+        else:
+            out.append(it)
     return out
 
 
@@ -208,6 +288,13 @@ def compare_counts(ctx, rule, what, current_items, table, keys, floor_total=None
     for k, its in sorted(cur.items()):
         rev = table.get(k)
         where = "%s:%d" % (its[0]["file"], its[0]["line"])
+        if k.endswith("|debug_assert") and (rev is None or len(its) > rev["count"]):
+            # debug assertions are compiled out of release builds (the shipped configuration); they restate what
+            # the surrounding code guarantees and cannot make a release build panic.  New ones are listed, not failed.
+            ctx.ok(rule, k, where, "debug-only assertion(s), not part of the release build", observed=len(its))
+            ctx.note("%s: %d debug assertion(s) in %s beyond the reviewed %d (debug-only; listed for information): %s" % (
+                rule, len(its), k.split("|")[0], rev["count"] if rev else 0, "; ".join("L%d" % i["line"] for i in its[:6])))
+            continue
         if rev is None:
             ctx.fail(rule, k, where, "unreviewed %s in a decode-path function: %s" % (what, "; ".join(
                 "L%d %s" % (i["line"], i.get("text", i.get("cond", ""))[:70]) for i in its[:4])),
